@@ -217,6 +217,18 @@ fn character_ladder() -> Vec<Variable> {
         out.push(arr(vec![Variable::from(format!("{c}").as_str()), 1i64.into()]));
         out.push(tup(vec![1i64.into(), Variable::from(format!("x{c}").as_str())]));
     }
+    // every ordered pair and triple of the characters that have an escape of their own (a reader
+    // or printer that treats a *sequence* specially - CR LF, a backslash before a quote - shows here)
+    let esc = ['\r', '\n', '\t', '\0', '\\', '"', '\'', 'a'];
+    for a in esc {
+        for b in esc {
+            out.push(Variable::from(format!("{a}{b}").as_str()));
+            out.push(arr(vec![Variable::from(format!("x{a}{b}y").as_str())]));
+            for c in esc {
+                out.push(Variable::from(format!("{a}{b}{c}").as_str()));
+            }
+        }
+    }
     out
 }
 
